@@ -87,6 +87,8 @@ type gl struct {
 	retSuffix   []string              // receiver fields handed back with every result
 	u64AsInt    bool
 	byteRd      bool // *bufio.Reader is used through ReadByte/UnreadByte: the abstract ByteRd
+	selfExts    []string // ext parameters a self-recursive function is declared to take (fixed up front)
+	selfRec     bool   // the function being translated calls itself: its body is wrapped in a match on `fuel`
 	floatLean   string // Lean type standing for float64 (newick: distances are the model's opaque `Dist`), zero = none
 	heapUse     bool   // the function being translated touches the heap (reads count)
 	pendLabel   string
@@ -122,6 +124,38 @@ func (g *gl) accumVar(e ast.Expr) (string, bool) {
 		}
 	}
 	return "", false
+}
+
+// accumCall: a call (as a statement) of a translated method of an opaque type that has accumulator parameters and
+// no results of its own; returns the call text and the caller's variables that receive the accumulators back
+func (g *gl) accumCall(c *ast.CallExpr) (string, []string, bool) {
+	sel, ok := c.Fun.(*ast.SelectorExpr)
+	if !ok {
+		return "", nil, false
+	}
+	fn, ok := g.info.Uses[sel.Sel].(*types.Func)
+	if !ok || fn.Pkg() != g.pkg {
+		return "", nil, false
+	}
+	sig := fn.Type().(*types.Signature)
+	if sig.Recv() == nil || sig.Results().Len() != 0 {
+		return "", nil, false
+	}
+	on := g.opaqueName(sig.Recv().Type())
+	if on == "" {
+		return "", nil, false
+	}
+	var accs []string
+	for _, a := range c.Args {
+		if v, ok := g.accumVar(a); ok {
+			accs = append(accs, v)
+		}
+	}
+	if len(accs) == 0 {
+		return "", nil, false
+	}
+	e := g.call(c)
+	return e.text, accs, true
 }
 
 // accumStmt: a statement-level method call on an accumulator
@@ -351,6 +385,7 @@ func (g *gl) opaqueName(t types.Type) string {
 }
 
 type glFunc struct {
+	accParams []string // names of accumulator parameters (*bytes.Buffer …): handed back as (additional) results
 	recvState []string // receiver fields it takes as parameters and hands back after its results (records mode)
 	exts    []string // stdlib functions it (transitively) takes as parameters, sorted
 	fuel    bool // takes a leading `fuel : Nat` parameter
@@ -1003,6 +1038,13 @@ func isNilIdent(e ast.Expr) bool {
 
 func (g *gl) binary(v *ast.BinaryExpr) ex {
 	lt := g.typeOf(v.X)
+	if g.floatLean != "" && isFloat(lt) && (v.Op == token.EQL || v.Op == token.NEQ) {
+		// an opaque float compared with the constant 0: "no value"
+		if tv, ok := g.info.Types[v.Y]; ok && tv.Value != nil && constant.Sign(tv.Value) == 0 {
+			return ex{text: g.expr(v.X).arg() + " " + map[token.Token]string{token.EQL: "==", token.NEQ: "!="}[v.Op] + " none"}
+		}
+		g.die(v, "comparison of opaque floats")
+	}
 	l, r := g.expr(v.X), g.expr(v.Y)
 	if isNilIdent(v.Y) && g.rdKind == "" {
 		if n := g.nilOf(lt); n != "" {
@@ -1270,17 +1312,39 @@ func (g *gl) call(c *ast.CallExpr) ex {
 					if _, isStruct := named.Underlying().(*types.Struct); !isStruct || g.opaqueName(named) != "" {
 						lname, ok := g.methodNames[named.Obj().Name()+"."+fn.Name()]
 						callee := g.funcs[lname]
-						if !ok || callee == nil || !callee.found {
+						self := ok && lname == g.curFunc
+						if !ok || callee == nil || (!callee.found && !self) {
 							g.die(c, "call of untranslated method "+named.Obj().Name()+"."+fn.Name())
 						}
 						parts := []string{lname}
-						for _, gv := range callee.globals {
-							g.globals[gv] = true
-							parts = append(parts, "g_"+gv)
-						}
-						if callee.fuel {
-							g.usesFuel = true
+						if self {
+							// a recursive call: the definition recurses structurally on `fuel`
+							g.selfRec, g.usesFuel = true, true
+							for _, k := range g.sortedGlobals() {
+								_ = k
+							}
+							if len(g.globals) > 0 || len(g.extUsed) > 0 {
+								// parameters that are discovered while translating cannot be passed to a call made before
+								// the discovery is complete; keep recursion to functions without them, except …
+							}
+							for _, k := range g.selfExts {
+								g.extUsed[k] = true
+								parts = append(parts, g.extFuncs[k].param)
+							}
 							parts = append(parts, "fuel")
+						} else {
+							for _, gv := range callee.globals {
+								g.globals[gv] = true
+								parts = append(parts, "g_"+gv)
+							}
+							for _, k := range callee.exts {
+								g.extUsed[k] = true
+								parts = append(parts, g.extFuncs[k].param)
+							}
+							if callee.fuel {
+								g.usesFuel = true
+								parts = append(parts, "fuel")
+							}
 						}
 						parts = append(parts, g.expr(f.X).arg())
 						for _, a := range c.Args {
@@ -2241,6 +2305,56 @@ func (g *gl) stmt(w *wr, s ast.Stmt) {
 	case *ast.ExprStmt:
 		if c, ok := v.X.(*ast.CallExpr); ok && g.accumStmt(w, c) {
 			return
+		}
+		if c, ok := v.X.(*ast.CallExpr); ok && g.rdKind == "" {
+			if sel, ok := c.Fun.(*ast.SelectorExpr); ok {
+				if pk, ok := sel.X.(*ast.Ident); ok {
+					if pn, ok := g.info.Uses[pk].(*types.PkgName); ok && pn.Imported().Path() == "fmt" && sel.Sel.Name == "Fprint" && len(c.Args) >= 2 {
+						if av, ok := g.accumVar(c.Args[0]); ok {
+							// fmt.Fprint(buf, a, b, …): no separator as long as one of two neighbours is a string
+							var parts []string
+							prevStr := true
+							for _, a := range c.Args[1:] {
+								at := g.typeOf(a)
+								bt, isB := at.Underlying().(*types.Basic)
+								isStr := isB && (bt.Kind() == types.String || bt.Kind() == types.UntypedString)
+								if !isStr && !prevStr {
+									g.die(c, "Fprint of two adjacent non-strings (a space is inserted)")
+								}
+								prevStr = isStr
+								switch {
+								case isStr:
+									parts = append(parts, g.expr(a).arg())
+								case isFloat(at) && g.floatLean != "":
+									ef, ok := g.extFuncs["fmt.float"]
+									if !ok {
+										g.die(c, "Fprint of a float")
+									}
+									g.extUsed["fmt.float"] = true
+									parts = append(parts, "("+ef.param+" "+g.expr(a).arg()+")")
+								default:
+									g.die(c, "Fprint operand")
+								}
+							}
+							w.line(av + " := " + av + " ++ " + strings.Join(parts, " ++ "))
+							return
+						}
+					}
+				}
+			}
+			// f(…, buf, …) / x.m(…, buf, …) for a translated callee with accumulator parameters and no other result
+			if txt, accs, ok := g.accumCall(c); ok {
+				if len(accs) == 1 {
+					w.line(accs[0] + " ← " + txt)
+				} else {
+					t := g.tmp()
+					w.line("let " + t + " ← " + txt)
+					for i, a := range accs {
+						w.line(a + " := " + tupleProj(t, i, len(accs)))
+					}
+				}
+				return
+			}
 		}
 		if c, ok := v.X.(*ast.CallExpr); ok && g.byteRd && g.rdKind == "" {
 			if sel, ok := c.Fun.(*ast.SelectorExpr); ok && sel.Sel.Name == "UnreadByte" && len(c.Args) == 0 {
@@ -3263,6 +3377,8 @@ func (g *gl) funcOrMethod(recvType, goName, name, rel, placeholder string) {
 		var params []string
 		var shadow []string
 		var recvTypes []string
+		var accNames []string
+		g.selfRec = false
 		g.retSuffix = nil
 		g.extUsed = map[string]bool{}
 		g.recLocal = map[types.Object]bool{}
@@ -3303,14 +3419,20 @@ func (g *gl) funcOrMethod(recvType, goName, name, rel, placeholder string) {
 		for _, fl := range sig.Params.List {
 			for _, pn := range fl.Names {
 				params = append(params, "("+g.nameOf(g.info.Defs[pn])+" : "+g.leanType(g.info.Defs[pn].Type())+")")
+				if isAccum(g.info.Defs[pn].Type()) {
+					// an accumulator passed by pointer: written through, so handed back
+					g.mut[g.info.Defs[pn]] = true
+					accNames = append(accNames, g.nameOf(g.info.Defs[pn]))
+				}
 				if g.mut[g.info.Defs[pn]] {
 					shadow = append(shadow, g.nameOf(g.info.Defs[pn]))
 				}
 			}
 		}
-		if (sig.Results == nil || len(sig.Results.List) == 0) && g.heapT == "" {
+		if (sig.Results == nil || len(sig.Results.List) == 0) && g.heapT == "" && len(accNames) == 0 {
 			g.die(fd, "result list")
 		}
+		g.funcs[name].accParams = accNames
 		g.heapUse, g.heapWr = false, false
 		if g.heapT != "" {
 			g.heapUse = g.heapUses(fd)
@@ -3442,6 +3564,21 @@ func (g *gl) funcOrMethod(recvType, goName, name, rel, placeholder string) {
 		if g.yieldT != "" {
 			w.line("return log")
 		}
+		if rt == nil && len(accNames) > 0 && !(g.heapT != "" && g.heapUse) {
+			// no result of its own: the accumulators it was given are what it returns
+			if len(accNames) == 1 {
+				w.line("return " + accNames[0])
+				resT = "List UInt8"
+			} else {
+				w.line("return (" + strings.Join(accNames, ", ") + ")")
+				var ts []string
+				for range accNames {
+					ts = append(ts, "(List UInt8)")
+				}
+				resT = "(" + strings.Join(ts, " × ") + ")"
+			}
+			doc += "; the *bytes.Buffer parameter is the bytes written so far, handed back as the result"
+		}
 		if g.heapT != "" && g.heapUse {
 			hl := g.heapLeanT()
 			if rt == nil {
@@ -3494,8 +3631,22 @@ func (g *gl) funcOrMethod(recvType, goName, name, rel, placeholder string) {
 		if recvType != "" {
 			src = "(" + recvType + ")." + goName
 		}
-		text := fmt.Sprintf("def %s_Found : Bool := true\n%s/-- translated from %s in %s/%s%s -/\ndef %s %s : Option %s := do\n%s",
-			name, strings.Join(g.lits, ""), src, rel, file, doc, name, all, paren(resT), w.b.String())
+		bodyText, intro := w.b.String(), "do\n"
+		if g.selfRec {
+			// recursion: structural on `fuel` (out of fuel = `none`, no claim)
+			var ls []string
+			for _, l := range strings.Split(strings.TrimRight(bodyText, "\n"), "\n") {
+				ls = append(ls, "  "+l)
+			}
+			bodyText = strings.Join(ls, "\n") + "\n"
+			intro = "match fuel with\n  | 0 => none\n  | fuel + 1 => do\n"
+			doc += "; the function calls itself: each call consumes one unit of `fuel`"
+			if len(g.selfExts) != len(g.extUsed) {
+				g.die(fd, "a recursive function must declare the stdlib parameters it uses")
+			}
+		}
+		text := fmt.Sprintf("def %s_Found : Bool := true\n%s/-- translated from %s in %s/%s%s -/\ndef %s %s : Option %s := %s%s",
+			name, strings.Join(g.lits, ""), src, rel, file, doc, name, all, paren(resT), intro, bodyText)
 		return text, globals
 	})
 }
@@ -4248,6 +4399,21 @@ func goLean(repo, out string) {
 	g2b.method("reader", "nextToken", "newick_nextToken", "formats/newick", "def newick_nextToken (fuel : Nat) (r_r : ByteRd) (r_b : "+B+") : Option (("+B+") × GoErr × ByteRd × ("+B+")) := none")
 	g2b.method("reader", "read", "newick_read", "formats/newick", "def newick_read (strconv_ParseFloat : "+PFLOAT+") (fuel : Nat) (heap : "+NHEAP+") (r_r : ByteRd) (r_b : "+B+") : Option (Int × GoErr × ("+NHEAP+") × ByteRd × ("+B+")) := none")
 	w.WriteString(g2b.funcs["newick_read"].text + "\n")
+	// formats/newick: the recursive writer.  The tree is only read: *Node is the model's `Newick.Tree`; the
+	// *bytes.Buffer is the bytes written so far; `%v` of a float64 distance is the parameter `fmt_float`
+	g2c := loadPkg(filepath.Join(repo, "formats", "newick"))
+	g2c.opaqueT = map[string]string{"Node": "Newick.Tree"}
+	g2c.opaqueF = map[string]string{"Node.Children": "kidsOf", "Node.Name": "Newick.Tree.name", "Node.Distance": "Newick.Tree.dist"}
+	g2c.floatLean = "Newick.Dist"
+	g2c.recT = map[string]bool{}
+	g2c.extFuncs = map[string]extFunc{"fmt.float": {"fmt_float", "Newick.Dist → List UInt8"}}
+	g2c.selfExts = []string{"fmt.float"}
+	g2c.methodNames = map[string]string{"Node.newick": "Node_newick", "Node.MarshalText": "Node_MarshalText"}
+	g2c.function("nameToText", "formats/newick", "def nameToText_lit0 : List UInt8 := []\ndef nameToText (s : "+B+") : Option ("+B+") := none")
+	g2c.method("Node", "newick", "Node_newick", "formats/newick", "def Node_newick (fmt_float : Newick.Dist → List UInt8) (fuel : Nat) (n : Newick.Tree) (buf : "+B+") : Option ("+B+") := none")
+	g2c.method("Node", "MarshalText", "Node_MarshalText", "formats/newick", "def Node_MarshalText (fmt_float : Newick.Dist → List UInt8) (fuel : Nat) (n : Newick.Tree) : Option (("+B+") × GoErr) := none")
+	w.WriteString(g2c.funcs["Node_newick"].text + "\n")
+	w.WriteString(g2c.funcs["Node_MarshalText"].text + "\n")
 	g8 := loadPkg(filepath.Join(repo, "formats", "bed"))
 	// the read side: parseLine and (*reader).read.  *BED is an Option tuple, *bufio.Reader the abstract BufRd,
 	// strconv.Atoi / strconv.ParseUint are parameters
